@@ -19,7 +19,7 @@ from vivarium.core.engine import Engine
 from vivarium.core.process import Process
 from vivarium.library.units import units
 
-LAWS = ['LawConserved', 'LawSplitEven', 'LawCopies', 'LawZero', 'LawPartition', 'LawNonEmpty']
+LAWS = ['LawConserved', 'LawSplitEven', 'LawSplitShift', 'LawCopies', 'LawZero', 'LawPartition', 'LawNonEmpty']
 
 
 def custom_divider(value, state):
@@ -222,6 +222,29 @@ def check_float_split(rep, v):
             viol(rep, 'split of %r gave %r, %r' % (mk(v), a1, a2), case)
 
 
+def check_big_split(rep, row):
+    """LawSplitShift instantiated beyond 2^53: the mother holds v + 2m with
+    m = 2^59 (a count no float can hold exactly); each daughter must hold m more
+    than a pair Dividers.tla allows for v."""
+    m = 2 ** 59
+    v = row['v']
+    outs = {(p[0] + m, p[1] + m) for p in row['outs']}
+    rep.evaluations += 1
+    vars_ = {'a': {'_default': 0, '_divider': 'split', '_emit': False}}
+    case = {'divider': 'split', 'v': 'v+2^60 with v=%d' % v, 'carrier': 'big int'}
+    try:
+        eng, snaps = run_division(vars_, {'a': v + 2 * m})
+    except Exception as e:
+        viol(rep, 'division raised %r' % (e,), case)
+        return
+    s = strip(snaps[0])['agents']
+    a1, a2 = s['d1']['st']['a'], s['d2']['st']['a']
+    if (a1, a2) not in outs:
+        viol(rep, 'split of %d gave %r, %r (sum %d); allowed %s'
+             % (v + 2 * m, a1, a2, a1 + a2, sorted(outs)), case)
+    rep.nontrivial.add('bigsplit-%d' % v)
+
+
 def check_dict(rep, row):
     keys = sorted(row['keys'])
     outs = {(tuple(sorted(p[0])), tuple(sorted(p[1]))) for p in row['outs']}
@@ -366,6 +389,9 @@ def run(rep, tier, scratch):
         check_scalar(rep, row, t['setvalue'], seeds)
     for v in (0, 1, 3, 8):
         check_float_split(rep, v)
+    for row in t['scalar']:
+        if row['d'] == 'split':
+            check_big_split(rep, row)
     for row in t['dict']:
         check_dict(rep, row)
     for row in t['custom']:
